@@ -391,5 +391,42 @@ def r15_9(ctx):
     return r
 
 
+def r15_10(ctx):
+    """RFC 3550 6.4.1: 'cumulative number of packets lost' is a SIGNED 24-bit field (duplicates can make it
+    negative). The parser must sign-extend the three bytes into the i32 (shift left by 8, arithmetic shift right by
+    8), the writer must clamp to the 24-bit range and keep the low 24 bits."""
+    r = RuleResult("R15.10", "K6", "report block: the signed 24-bit loss counter is sign-extended on parse and truncated on write")
+    pb, wb = ctx.body("rtp::parse_report_block"), ctx.body("rtp::build_report_block")
+    r.scope += [pb.name, wb.name]
+    t = None
+    for bi, si, st in pb.assigns():
+        rv = st["rv"]
+        if rv["r"] == "agg" and rv.get("ak") == "adt" and "packets_lost" in rv.get("fields", ()):
+            t = pb.term_operand(rv["ops"][rv["fields"].index("packets_lost")])
+    if t is None:
+        raise core.CheckerError("R15.10: packets_lost not found in parse_report_block")
+    sx = t[0] == "bin" and t[1] in ("Shr", "ShrUnchecked") and mir.int_value(t[3]) == 8 and \
+        t[2][0] == "bin" and t[2][1] in ("Shl", "ShlUnchecked") and mir.int_value(t[2][3]) == 8
+    if sx and sorted(_const_idx(t)) == [5, 6, 7]:
+        r.ok({"parse": "((b5<<16 | b6<<8 | b7) << 8) >> 8 on i32: sign-extended"})
+    else:
+        r.violate(pb.name, "signext:packets_lost", pb.where(0),
+                  "the 24-bit loss counter is assembled as %s without sign extension: negative counts parse as n + 2^24" % mir.show(t, 120))
+    ok_w = False
+    for bi, si, st in wb.assigns():
+        tt = wb.term_rvalue(st["rv"])
+        if tt[0] == "bin" and tt[1] == "BitAnd" and mir.int_value(tt[3]) == 0x00FFFFFF and mir.has(tt[2], lambda x: x[0] == "call" and x[1].endswith("::clamp")):
+            ok_w = True
+    if ok_w:
+        r.ok({"write": "(clamp(-2^23, 2^23-1) as u32) & 0x00FFFFFF"})
+    else:
+        r.violate(wb.name, "trunc:packets_lost", wb.where(0), "the loss counter is not clamped to 24 signed bits and masked with 0x00FFFFFF before it is written")
+    return r
+
+
+def _const_idx(t):
+    return [x[2][1] for x in mir.walk(t) if x[0] == "index" and x[2][0] == "const"]
+
+
 def run(ctx):
-    return [r15_1(ctx), r15_2(ctx), r15_3(ctx), r15_4(ctx), r15_5(ctx), r15_6(ctx), r15_7(ctx), r15_8(ctx), r15_9(ctx)]
+    return [r15_1(ctx), r15_2(ctx), r15_3(ctx), r15_4(ctx), r15_5(ctx), r15_6(ctx), r15_7(ctx), r15_8(ctx), r15_9(ctx), r15_10(ctx)]
